@@ -161,8 +161,8 @@ def eval_polars(case):
 
 
 FAMILIES = [
-    Family("depth", eval_depth, strategy=lambda: gen.repaired_case(), n_quick=150, n_thorough=3000, shards_quick=4,
+    Family("depth", eval_depth, strategy=lambda: gen.repaired_case(), n_quick=300, n_thorough=3000, shards_quick=4,
            shards_thorough=16, required_labels=["ref:SO=A,DO=R", "ref:SO=R,DO=A", "ref:SO=A,DO=A"]),
-    Family("polars_default_depth", eval_polars, strategy=strat_polars, n_quick=300, n_thorough=3000, shards_quick=2,
+    Family("polars_default_depth", eval_polars, strategy=strat_polars, n_quick=600, n_thorough=3000, shards_quick=2,
            shards_thorough=8),
 ]
